@@ -465,7 +465,9 @@ def run_check(
         world = run_seed(plan.world)
         cfg = dict(plan.cfg, run_index=v["idx"])
         try:
-            best = minimise(world, prop, cfg, v["values"], sig)  # type: ignore[arg-type]
+            # the first signature gets the full budget, later ones less: the verdict is already known
+            k = len(reported) - 1
+            best = minimise(world, prop, cfg, v["values"], sig, max_s=(60.0, 25.0, 10.0)[min(k, 2)])  # type: ignore[arg-type]
         except RuntimeError as e:
             print(f"UNCONFIRMED property={prop} violation {sig} at run {v['idx']}: {e}", flush=True)
             print(f"  {v['detail']}", flush=True)
